@@ -674,10 +674,66 @@ def judge_nested(case, blocks):
 
 
 # ----------------------------------------------------------------------------- lines next to stacked floats
+SPACING_EMS = [0, 0, 0.5, 1, 1, 2, 2, 3]
+
+
+def gen_float_spans(rng, lo, hi, depth, p):
+    """properly nested inline boxes over the words lo..hi-1, at most two deep: dict(s, e, depth, start, end, how) with
+    s..e the words inside (e included) and start / end the spacing in em at the start / end side of the box; most boxes
+    close right after their first word"""
+    out, k = [], lo
+    while k < hi:
+        if rng.random() < p:
+            e = min(hi - 1, k + rng.choice([0, 0, 0, 1, 2, 4]))
+            out.append(dict(s=k, e=e, depth=depth, start=rng.choice(SPACING_EMS), end=rng.choice(SPACING_EMS),
+                            how=rng.choice(['padding', 'margin', 'border', 'mix'])))
+            if depth < 1 and rng.random() < 0.4:
+                out += gen_float_spans(rng, k, e + 1, depth + 1, 0.6)
+            k = e + 1
+        else:
+            k += 1
+    return out
+
+
+def span_css(sp, fs, rtl):
+    st = []
+    for amount, side in ((sp['start'], 'right' if rtl else 'left'), (sp['end'], 'left' if rtl else 'right')):
+        px = amount * fs
+        if not px:
+            continue
+        if sp['how'] == 'padding':
+            st.append('padding-%s:%gpx' % (side, px))
+        elif sp['how'] == 'margin':
+            st.append('margin-%s:%gpx' % (side, px))
+        elif sp['how'] == 'border':
+            st.append('border-%s:%gpx solid' % (side, px))
+        else:
+            st += ['padding-%s:%gpx' % (side, px / 2), 'border-%s:%gpx solid' % (side, px / 4),
+                   'margin-%s:%gpx' % (side, px / 4)]
+    return ';'.join(st)
+
+
+def float_text_html(words, spans, fs, rtl, mid_html=None, mid_at=None):
+    out = ''
+    for k, w in enumerate(words):
+        if k:
+            out += ' '
+        if mid_at == k:
+            out += mid_html
+        for sp in sorted((sp for sp in spans if sp['s'] == k), key=lambda sp: sp['depth']):
+            out += '<span style="%s">' % span_css(sp, fs, rtl)
+        out += w
+        out += '</span>' * len([sp for sp in spans if sp['e'] == k])
+    return out
+
+
 def gen_float_case(rng, idx, allow_inline=True, allow_mid=True, allow_tall_aligned=True):
     """1..3 floats (left/right, clear) whose heights are exact multiples of the line height or one pixel off, before
     the text of the block (block-level floats or floated spans at the very start of the paragraph), sometimes one
-    more float met in the middle of the text"""
+    more float met in the middle of the text.  Two paragraphs out of three carry inline boxes with start / end margin,
+    border, padding (multiples of half the font size, nested, mostly closing after their first word); then the room
+    left beside one of the floats is a small number of em and the words are as long as that room or a little shorter,
+    so that a word often fits there without the spacing of its inline boxes but not with it."""
     fs = rng.choice([5, 10, 10, 16])
     lh = rng.choice([fs, fs, 2 * fs, fs + 3])
     em = rng.choice([6, 8, 10, 12, 15, 20, 30])
@@ -686,34 +742,52 @@ def gen_float_case(rng, idx, allow_inline=True, allow_mid=True, allow_tall_align
     if ta in ('right', 'justify') and not allow_tall_aligned:
         lh = fs
     inline = rng.random() < 0.3 and allow_inline
+    spanned = rng.random() < 0.67
+    rtl = spanned and rng.random() < 0.3
+    room = rng.choice([2, 3, 3, 4, 4, 5, 6]) if spanned else None
     floats = []
     for k in range(rng.choice([1, 2, 2, 3])):
         side = rng.choice(['left', 'left', 'right'])
         fw = rng.choice([fs, 2 * fs, 3 * fs, 5 * fs, int(width / 2), int(width * 0.8)])
+        if spanned and (k == 0 or rng.random() < 0.3) and em - room >= 1:
+            fw = fs * (em - room)
         fh = max(1, lh * rng.choice([1, 1, 2, 3]) + rng.choice([0, 0, 0, 1, -1]))
         clear = rng.choice(['none', 'none', side, 'both'])
         floats.append(dict(side=side, w=fw, h=fh, clear=clear,
                            mt=rng.choice([0, 0, 0, lh, 1]), mb=rng.choice([0, 0, 0, lh])))
     words = gen_words(rng, nmax=rng.choice([6, 12, 25, 40]))
     words = [w[:rng.choice([1, 2, 3, 5, 8])] for w in words]
+    if spanned:
+        words = [(w + w + w)[:max(1, room - rng.choice([0, 0, 1, 1, 2]))] if rng.random() < 0.5 else w for w in words]
     tag = 'span' if inline else 'div'
     fl_html = ''.join('<%s style="float:%s;clear:%s;width:%dpx;height:%dpx;margin-top:%dpx;margin-bottom:%dpx"></%s>' % (
         tag, f['side'], f['clear'], f['w'], f['h'] - f['mt'] - f['mb'] if f['h'] - f['mt'] - f['mb'] > 0 else f['h'],
         f['mt'], f['mb'], tag) for f in floats)
-    mid = None
-    text = ' '.join(words)
+    mid, mid_html, cut = None, None, len(words)
     if rng.random() < 0.1 and len(words) > 3 and allow_mid:
         j = rng.randint(1, len(words) - 1)
         mid = dict(side=rng.choice(['left', 'right']), w=rng.choice([fs, 3 * fs]), h=rng.choice([lh, 2 * lh + 1]), at=j)
-        text = ' '.join(words[:j]) + ' <span style="float:%s;width:%dpx;height:%dpx"></span>' % (mid['side'], mid['w'], mid['h']) \
-            + ' '.join(words[j:])
+        mid_html = '<span style="float:%s;width:%dpx;height:%dpx"></span>' % (mid['side'], mid['w'], mid['h'])
+        cut = j
+    spans = []
+    if spanned:
+        # the float met in the text stays a child of the line box: no inline box spans over it
+        p = rng.choice([0.15, 0.3, 0.5])
+        spans = gen_float_spans(rng, 0, cut, 0, p) + gen_float_spans(rng, cut, len(words), 0, p)
+        if rng.random() < 0.5 and not any(sp['s'] == 0 for sp in spans):
+            spans.append(dict(s=0, e=0, depth=0, start=rng.choice(SPACING_EMS[2:]), end=rng.choice(SPACING_EMS),
+                              how=rng.choice(['padding', 'margin', 'border', 'mix'])))
+    text = float_text_html(words, spans, fs, rtl, mid_html, mid and mid['at'])
     style = 'width:%spx;font-size:%dpx;line-height:%dpx;text-align:%s' % (width, fs, lh, ta)
+    if rtl:
+        style += ';direction:rtl'
     if inline:
         body = '<p id="p%d" style="margin:0;%s">%s%s</p>' % (idx, style, fl_html, text)
     else:
         body = '<div id="p%d" style="%s">%s%s</div>' % (idx, style, fl_html, text)
     html = ('<style>@page{size:3000px 200000px;margin:0}body{margin:0;font-family:weasyprint}</style>' + body)
-    return dict(html=html, words=words, fs=fs, lh=lh, width=width, ta=ta, inline=inline, nfloats=len(floats), mid=mid)
+    return dict(html=html, words=words, fs=fs, lh=lh, width=width, ta=ta, inline=inline, nfloats=len(floats), mid=mid,
+                spans=spans, rtl=rtl)
 
 
 def free_interval(B, floats, top, bottom):
@@ -729,6 +803,10 @@ def free_interval(B, floats, top, bottom):
     return left, right
 
 
+def floats_beside(floats, top, bottom):
+    return [f for f in floats if f['y'] < bottom - EPS and f['y'] + f['mh'] > top + EPS and f['mw'] > 0]
+
+
 def float_lines(blocks):
     """the main container and its lines that hold something"""
     mains = [b for b in blocks if b['main']]
@@ -738,20 +816,48 @@ def float_lines(blocks):
     return B, [ln for ln in B['lines'] if ln['text'].strip(' ') or ln['w'] > 0]
 
 
-def judge_floats(case, blocks, hyp=None):
+def float_units(case):
+    """from the source: per word, the start spacing of the inline boxes that open before it and the end spacing of
+    those that close after it (px).  No break opportunity separates a word from them: they belong to its unit."""
+    n, fs = len(case['words']), case['fs']
+    st, en = [0] * n, [0] * n
+    for sp in case.get('spans', ()):
+        st[sp['s']] += sp['start'] * fs
+        en[sp['e']] += sp['end'] * fs
+    return st, en
+
+
+def judge_floats(case, blocks, hyp=None, stats=None):
     """hyp = (line index, dl, dr): judge that line only, in the free interval reduced by dl at the left and dr at the
-    right (used by classify_floats to test a hypothesis about the mechanism of an alarm)"""
+    right (used by classify_floats to test a hypothesis about the mechanism of an alarm).
+    The unit of a word = the word with the start / end spacing of the inline boxes that open right before / close right
+    after it; a line of the words a..b-1 is as wide as its words, spaces and the spacing of the boxes that open or close
+    on it (computed from the source, cross-checked on ltr lines with first_break_x of the rendered line)."""
     bad = []
     B, lines = float_lines(blocks)
     if B is None:
         return [('paragraph-rendered-once', 'line 0 %d containers' % len([b for b in blocks if b['main']]))]
-    floats, fs = B['floats'], case['fs']
+    floats, fs, words = B['floats'], case['fs'], case['words']
+    rtl = case.get('rtl', False)
     got = ' '.join(ln['text'].strip(' ') for ln in B['lines'] if ln['text'].strip(' '))
-    if got != ' '.join(case['words']):
+    if got != ' '.join(words):
         return [('lines-cover-text', 'line 0 texts %r' % got[:80])]
+    st, en = float_units(case)
+
+    def unit(k):
+        return len(words[k]) * fs + st[k] + en[k]
+
+    def natural(a, b):
+        return (sum(len(w) for w in words[a:b]) + max(0, b - a - 1)) * fs + sum(st[a:b]) + sum(en[a:b])
+    ranges, k = [], 0
+    for ln in lines:
+        cnt = len(ln['text'].split())
+        ranges.append((k, k + cnt))
+        k += cnt
     for i, ln in enumerate(lines):
         if hyp is not None and i != hyp[0]:
             continue
+        a, b = ranges[i]
         top, bottom = ln['y'], ln['y'] + ln['h']
         left, right = free_interval(B, floats, top, bottom)
         if hyp is not None:
@@ -759,32 +865,73 @@ def judge_floats(case, blocks, hyp=None):
         avail = right - left
         text = ln['text'].strip(' ')
         last = i == len(lines) - 1
-        if ln['w'] > avail + EPS and ' ' in text:
+        holds_float = any(it['kind'] == 'float' for it in ln['items'])
+        if stats is not None and b > a and st[a] + en[a] > 0:
+            # the boundary this stream is after, at the position where the line is tried first (top of the block,
+            # right below the previous line): a float is beside it and the first word fits in the room left there
+            # without the spacing of its inline boxes but not with it
+            y0 = B['y'] if i == 0 else lines[i - 1]['y'] + lines[i - 1]['h']
+            l0, r0 = free_interval(B, floats, y0, y0 + ln['h'])
+            if floats_beside(floats, y0, y0 + ln['h']) and len(words[a]) * fs <= r0 - l0 + EPS < unit(a):
+                key = 'first_word_fits_beside_float_only_without_its_spacing_' + ('line0' if i == 0 else 'later_line')
+                stats[key] = stats.get(key, 0) + 1
+        if ln['w'] > avail + EPS and b - a >= 2:
             bad.append(('float-fit', 'line %d %r x=%s w=%s free %s..%s' % (i, text, ln['x'], ln['w'], left, right)))
-        elif ln['w'] <= avail + EPS:
-            ta = {'start': 'left'}.get(case['ta'], case['ta'])
-            if ta == 'justify' and (last or ' ' not in text):
-                ta = 'left'
+        elif ln['w'] > avail + EPS:
+            # one unbreakable unit: it may stick out of the room left by the floats only where no float is left
+            # beside it (CSS 2.1 9.5: otherwise the line box is shifted downward)
+            beside = floats_beside(floats, top, bottom)
+            if beside and b > a:
+                over = [f for f in beside if
+                        min(ln['x'] + ln['w'], f['x'] + f['mw']) - max(ln['x'], f['x']) > EPS]
+                bad.append(('float-unit-beside-float', 'line %d %r x=%s w=%s free %s..%s: does not fit beside the float(s) '
+                            'at its height%s' % (i, text, ln['x'], ln['w'], left, right,
+                                                 ' and overlaps %d of them' % len(over) if over else '')))
+        else:
+            ta = {'start': 'right' if rtl else 'left'}.get(case['ta'], case['ta'])
+            if ta == 'justify' and (last or b - a < 2):
+                ta = 'right' if rtl else 'left'
+            n0 = len(bad)
             if ta == 'left' and abs(ln['x'] - left) > EPS:
                 bad.append(('float-start-x', 'line %d %r x=%s w=%s free %s..%s' % (i, text, ln['x'], ln['w'], left, right)))
             if ta == 'right' and abs(ln['x'] + ln['w'] - right) > EPS:
                 bad.append(('float-start-x', 'line %d %r x=%s w=%s free %s..%s' % (i, text, ln['x'], ln['w'], left, right)))
             if ta == 'justify' and (abs(ln['x'] - left) > EPS or abs(ln['w'] - avail) > EPS):
                 bad.append(('float-start-x', 'line %d %r x=%s w=%s free %s..%s' % (i, text, ln['x'], ln['w'], left, right)))
+            if len(bad) == n0 and (ln['x'] < left - EPS or ln['x'] + ln['w'] > right + EPS):
+                bad.append(('float-overlap', 'line %d %r x=%s w=%s free %s..%s' % (i, text, ln['x'], ln['w'], left, right)))
+        justified = case['ta'] == 'justify' and not last and b - a >= 2
+        if not holds_float and not justified and b > a and abs(ln['w'] - natural(a, b)) > EPS:
+            bad.append(('float-line-extent', 'line %d %r w=%s but its words, spaces and the spacing of the inline boxes '
+                        'that open / close on it add up to %s' % (i, text, ln['w'], natural(a, b))))
+        if not rtl and not holds_float and not justified and b > a:
+            fb = first_break_x(ln)
+            ext = (fb - ln['x']) if fb is not None else ln['w']
+            if abs(ext - unit(a)) > EPS:
+                bad.append(('float-unit-extent', 'line %d %r first unit ends at %s after the line start, source says %s' % (
+                    i, text, ext, unit(a))))
+        if i == 0 and hyp is None and b > a and ln['y'] > B['y'] + EPS:
+            l2, r2 = free_interval(B, floats, B['y'], B['y'] + ln['h'])
+            if unit(a) <= r2 - l2 + EPS:
+                bad.append(('float-needless-gap', 'line %d starts at %s, its block at %s although %r (unit %s) fits in %s..%s' % (
+                    i, ln['y'], B['y'], words[a], unit(a), l2, r2)))
         if not last:
             nxt = lines[i + 1]
-            word = nxt['text'].strip(' ').split(' ')[0]
-            natural = len(text) * fs
-            if case['ta'] != 'justify' and natural + (1 + len(word)) * fs <= avail - EPS:
-                bad.append(('float-greedy', 'line %d %r (%s of %s..%s): %r would fit' % (i, text, natural, left, right, word)))
+            if b >= len(words) or b <= a:
+                continue
+            word = words[b]
+            nat = natural(a, b)
+            if case['ta'] != 'justify' and nat + fs + unit(b) <= avail - EPS:
+                bad.append(('float-greedy', 'line %d %r (%s of %s..%s): %r (unit %s) would fit' % (
+                    i, text, nat, left, right, word, unit(b))))
             if nxt['y'] < bottom - EPS:
                 bad.append(('float-lines-stack', 'line %d ends at %s, next starts at %s' % (i, bottom, nxt['y'])))
             elif nxt['y'] > bottom + EPS:
-                # the next line was pushed down: its first word must not fit right below this line
+                # the next line was pushed down: its first unit must not fit right below this line
                 l2, r2 = free_interval(B, floats, bottom, bottom + nxt['h'])
-                if len(word) * fs <= r2 - l2 + EPS:
-                    bad.append(('float-needless-gap', 'line %d ends at %s, next at %s although %r fits in %s..%s' % (
-                        i, bottom, nxt['y'], word, l2, r2)))
+                if unit(b) <= r2 - l2 + EPS:
+                    bad.append(('float-needless-gap', 'line %d ends at %s, next at %s although %r (unit %s) fits in %s..%s' % (
+                        i, bottom, nxt['y'], word, unit(b), l2, r2)))
     return bad
 
 
